@@ -41,8 +41,10 @@ class EADeme(AbstractDeme):
     def run_metaepoch(self, tree) -> None:
         epoch_counter = 0
         metaepoch_generations = []
+        population = self.current_population
         while epoch_counter < self._generations:
-            offspring = self._ea.run(self.current_population, mutation_std=self._get_mutation_std())
+            offspring = self._ea.run(population, mutation_std=self._get_mutation_std())
+            population = offspring
             epoch_counter += 1
             metaepoch_generations.append(offspring)
 
